@@ -1276,6 +1276,21 @@ func (broker *Broker) finish(file sts.Polled) {
 	switch {
 	case file.Waiting() || file.Received():
 		log.Debug("Validated:", file.GetName())
+		// What was confirmed is the version that was sent.  If the cache
+		// already describes a newer version, or the file has changed since,
+		// it must be neither marked done nor deleted; the scan picks it up as
+		// changed and it is sent again.
+		if cached := broker.Conf.Cache.Get(file.GetName()); cached != nil {
+			if cached.GetHash() != file.GetHash() {
+				broker.info("Ignoring confirmation of earlier version:", file.GetName())
+				return
+			}
+			if changed, err := broker.Conf.Store.Sync(cached); changed != nil ||
+				(err != nil && !broker.Conf.Store.IsNotExist(err)) {
+				broker.info("Ignoring confirmation of changed file:", file.GetName())
+				return
+			}
+		}
 		// Make marking done and file removal a single transaction so that we
 		// keep the cache in sync with the file system.  Without it, it's
 		// possible (but not likely) that the cache could be written with a
